@@ -22,6 +22,18 @@ macro_rules! lattice {
         )*
     };
 }
+/// same with one extra Kani attribute (e.g. a stub), written as `[kani::stub(a, b)]`
+#[macro_export]
+macro_rules! lattice_attr {
+    ([$attr:meta] $body:ident; $( $name:ident : <$T:ty, $N:ty, $R:literal> unwind $u:literal ;)*) => {
+        $(
+            #[cfg_attr(kani, kani::proof)]
+            #[cfg_attr(kani, kani::unwind($u))]
+            #[cfg_attr(kani, $attr)]
+            pub fn $name() { $body::<$T, $N, { $R }>() }
+        )*
+    };
+}
 /// same, for bodies that must end in a panic on every path
 #[macro_export]
 macro_rules! lattice_panics {
@@ -61,3 +73,4 @@ pub mod c09;
 pub mod c10;
 pub mod c11;
 pub mod c13;
+pub mod c19;
